@@ -25,6 +25,27 @@ def directed(rng: random.Random, tier: str):
             hs.round([(2, f)], [1, 2, 3, 4], 1)
             hs.round([(4, hs.publish(100, b"after"))], [1, 4], 2)
             out.append(hs)
+    # a subscriber that is removed (nested, while the CLIENT_CLOSED of an earlier recipient of the SAME message is being
+    # delivered to it) and is still ahead in the recipient list of that message: it must be skipped, not written to again
+    for lvl in (60, 40):
+        for both_types in (True, False):
+            hs = C.History(loglevel=lvl, tag="removed-during-own-delivery")
+            for _ in range(4):
+                hs.round([], [], 0, accept=True)
+            hs.round([(1, hs.connect_v2(logger=1, mod_id=0))], [1, 2, 3, 4], 0)
+            hs.round([(1, hs.sub("sub", C.ALL))], [1, 2, 3, 4], 0)
+            hs.round([(2, hs.connect_v1(src_mod=20)), (3, hs.connect_v1(src_mod=21)), (4, hs.connect_v1(src_mod=22))], [1, 2, 3, 4], 0)
+            hs.round([(2, hs.sub("sub", 100))], [1, 2, 3, 4], 0)
+            if both_types:
+                hs.round([(3, hs.sub("sub", 100))], [1, 2, 3, 4], 0)
+                hs.round([(3, hs.sub("sub", C.MT["CLIENT_CLOSED"]))], [1, 2, 3, 4], 0)
+            else:
+                hs.round([(3, hs.sub("sub", C.ALL))], [1, 2, 3, 4], 0)
+            hs.fault(2, 0)
+            hs.fault(3, 0)
+            hs.round([(4, hs.publish(100, b"x"))], [1, 2, 3, 4], 1)
+            hs.round([(4, hs.publish(100, b"after"))], [1, 4], 2)
+            out.append(hs)
     return out
 
 
